@@ -5,7 +5,7 @@ props="${@:-C01 C02 C03 C04 C05 C06 C07 C08 C09 C10 C11 C12 C13 C14 C15 C16 C17 
 mkdir -p out/logs
 for p in $props; do
   s=$(date +%s)
-  ./check $p $tier > out/logs/$p.$tier.log 2>&1; rc=$?
+  timeout ${RUN_TIMEOUT:-3600} ./check $p $tier > out/logs/$p.$tier.log 2>&1; rc=$?
   e=$(date +%s)
   echo "$p $tier rc=$rc $((e-s))s $(grep -c '^VIOLATION' out/logs/$p.$tier.log) viol $(grep -c '^KNOWN-FINDING' out/logs/$p.$tier.log) known $(grep -c '^INCONCLUSIVE' out/logs/$p.$tier.log) inconcl $(grep -c '^TV-MISMATCH' out/logs/$p.$tier.log) tvbad $(grep -c 'BROKEN' out/logs/$p.$tier.log) broken | $(grep "^\[$p\] $tier" out/logs/$p.$tier.log | sed 's/.*paths=/paths=/' | cut -c1-150)"
 done
